@@ -23,6 +23,10 @@ from harness import kit
 
 LIMIT = 30000
 UNREP = [0, 0, 9]
+# beyond the bounds of the exact-arithmetic model (num = den = 0), the kind of number kept:
+BIG_FRAC = [0, 0, 6]     # a Fraction
+BIG_INT = [0, 0, 7]      # an integer
+BIG_FLOAT = [0, 0, 8]    # a finite float whose exact value (lowest terms) is beyond the bounds
 OPS = ["geo", "out", "inn", "scl", "lc", "rc"]
 
 # ------------------------------------------------------------------ driver side
@@ -63,10 +67,10 @@ def _ser_coef(x):
         return [int(bool(x)), 1, 3]
     if isinstance(x, numbers.Integral):
         x = int(x)
-        return [x, 1, 0] if abs(x) <= LIMIT else UNREP
+        return [x, 1, 0] if abs(x) <= LIMIT else BIG_INT
     if isinstance(x, Fraction):
         if abs(x.numerator) > LIMIT or x.denominator > LIMIT:
-            return UNREP
+            return BIG_FRAC
         return [x.numerator, x.denominator, 1]
     if isinstance(x, (float, np.floating)):
         x = float(x)
@@ -74,7 +78,7 @@ def _ser_coef(x):
             return UNREP
         n, d = x.as_integer_ratio()
         if abs(n) > LIMIT or d > LIMIT:
-            return UNREP
+            return BIG_FLOAT
         return [n, d, 2]
     return UNREP
 
@@ -430,7 +434,7 @@ def _ser_tree(e):
         return {"k": "sum" if isinstance(e, Sum) else "prod", "q": [0, 1, 0], "nm": "",
                 "a": [_ser_tree(ch) for ch in e.children]}
     q = _ser_coef(e)
-    if q == UNREP:
+    if q[1] == 0:
         return {"k": "other", "q": [0, 1, 0], "nm": type(e).__name__, "a": []}
     return {"k": "num", "q": q, "nm": "", "a": []}
 
@@ -561,7 +565,73 @@ def _drive_hist(c):
     return o, len(c["steps"]) + 20
 
 
-_DRIVERS = {"hist": _drive_hist, "symeq": _drive_symeq, "sym": _drive_sym, "pair": _drive_pair, "triple": _drive_triple, "unary": _drive_unary,
+def _space_mode(sm, n, g):
+    """A space constructed the way the case says (None: no space is passed at all)."""
+    import numpy as np
+    from pymbolic.geometric_algebra import Space, get_euclidean_space
+    if sm == "default":
+        return Space(n)
+    if sm == "names":
+        return Space([f"b{i}" for i in range(n)])
+    if sm == "euclid":
+        return get_euclidean_space(n)
+    if sm == "nd":
+        return None
+    if sm == "int":
+        return Space(n, np.diag(np.array([int(x) for x in g], dtype=np.int64)))
+    if sm in ("obj", "frac", "monly"):
+        mm = np.zeros((n, n), dtype=object)
+        for i, gi in enumerate(g):
+            mm[i, i] = Fraction(int(gi)) if sm == "frac" else int(gi)
+        return Space(None, mm) if sm == "monly" else Space(n, mm)
+    raise ValueError(sm)
+
+
+def _mv_mode(ts, sp, n):
+    """Operand of a spc case: index-tuple dict over the given space, or (no space:
+    mode nd) a numpy object vector handed to MultiVector alone."""
+    import numpy as np
+    from pymbolic.geometric_algebra import MultiVector
+    if sp is not None:
+        return _mv_t(ts, sp)
+    arr = np.zeros(n, dtype=object)
+    for w, cf in ts:
+        arr[w[0] - 1] = _coef(cf)
+    return MultiVector(arr)
+
+
+def _drive_spc(c):
+    """The way the space is constructed is an input; everything recorded keeps the
+    kind of number of every coefficient."""
+    n = c["n"]
+    sp = _space_mode(c["sm"], n, c["g"])
+    a, b = _mv_mode(c["a"], sp, n), _mv_mode(c["b"], sp, n)
+    spa = a.space
+    mm = spa.metric_matrix
+    dims = int(spa.dimensions)
+    offd = 1
+    for i in range(dims):
+        for j in range(dims):
+            if i != j and mm[i, j] != 0:
+                offd = 0
+    inv, sinv = _raw(lambda: a.inv())
+    o = {
+        "sp": {"dims": dims, "same": int(b.space is spa), "offd": offd,
+               "gm": [_ser_coef(mm[i, i]) for i in range(dims)]},
+        "a": _ser(a), "b": _ser(b),
+        "p": {op: _call(lambda op=op: _apply(op, a, b)) for op in OPS},
+        "q": {op: _call(lambda op=op: _apply(op, b, a)) for op in OPS},
+        "nsa": _call(lambda: a.norm_squared()), "nsb": _call(lambda: b.norm_squared()),
+        "dual": _call(lambda: a.dual()), "I": _call(lambda: a.I),
+        "sq": _call(lambda: a ** 2),
+        "inv": sinv,
+        "inv_a": _call(lambda: inv * a) if inv is not None else sinv,
+        "a_inv": _call(lambda: a * inv) if inv is not None else sinv,
+    }
+    return o, 22
+
+
+_DRIVERS = {"spc": _drive_spc, "hist": _drive_hist, "symeq": _drive_symeq, "sym": _drive_sym, "pair": _drive_pair, "triple": _drive_triple, "unary": _drive_unary,
             "bilin": _drive_bilin, "eq": _drive_eq, "prog": _drive_prog}
 
 
@@ -608,6 +678,8 @@ def signature(case, verdict, fail):
         sig["coefs"] = sorted(_tree_kinds(c["ra"]["ts"]) | _tree_kinds(c["rb"]["ts"]))
     elif k == "hist":
         sig["steps"] = list(c["steps"])
+    elif k == "spc":
+        sig["sm"] = c["sm"]
     elif k == "eq":
         sig["why"] = fail.get("w", "none")
         if sig["why"] == "none":
@@ -622,7 +694,7 @@ def _judge(recs, wd, out, tag):
         bykind.setdefault(r["c"]["k"], []).append(r)
     shards = []
     for k, rs in sorted(bykind.items()):
-        target = {"bilin": 1200, "prog": 3000, "unary": 4500, "eq": 8000, "sym": 2000, "symeq": 4000, "hist": 4000}.get(k, 25000)
+        target = {"bilin": 1200, "prog": 3000, "unary": 4500, "eq": 8000, "sym": 2000, "symeq": 4000, "hist": 4000, "spc": 3500}.get(k, 25000)
         # balanced shards, in multiples of the 4 JVMs that judge concurrently
         nsh = -(-len(rs) // target)
         if nsh > 2:
@@ -663,11 +735,11 @@ def _nontrivial(c):
     return True
 
 
-BUGS = ["crs", "metric", "inner", "inv", "eq", "add", "lc", "rev", "prune"]
-QUICK_BUGS = BUGS[:6]
+BUGS = ["crs", "metric", "inner", "inv", "eq", "add", "eye", "lc", "rev", "prune"]
+QUICK_BUGS = BUGS[:7]
 # thorough tier: the exhaustive space is generated in slices (kind, number of slices)
 THOROUGH_SLICES = [("pair", 12), ("triple", 6), ("unary", 2), ("homog", 2), ("bilin", 1), ("eq", 1),
-                   ("sym", 1), ("symeq", 1), ("hist", 1)]
+                   ("sym", 1), ("symeq", 1), ("hist", 1), ("spc", 1)]
 
 
 def _cases_of(res):
